@@ -1,27 +1,24 @@
-"""Single source for MANIFEST.json: one entry per claimed property.
-bin/mkmanifest renders it; properties without an entry are listed under
-not_applicable with the reason given in PENDING."""
+"""MANIFEST.json is rendered by bin/mkmanifest from the REGISTRY dict that every
+check module checks/cNN.py defines (category, text, design_ref, note, technique).
+Properties without a check module are listed under not_applicable."""
+import importlib
+import json
+import os
 
-TXTAR_LEVEL = ("TLC enumerates every byte string up to the length bound over the marker-relevant alphabet as the states of "
-               "MC_Txtar, checks the statement's laws on the explicit reference semantics (Txtar.tla) in every state and emits "
-               "the predicted result; each case is replayed into the real package (panic, re-parse stability, x/tools "
-               "agreement, CRLF rule, quoting laws). Real results on seeded random inputs are validated by TLC against the "
-               "same specification (Trace_Txtar).")
-
-CHECKS = {
-    "C03": dict(
-        category="model_checking", design_ref="DESIGN.md section 3 C03",
-        text=TXTAR_LEVEL + " Exhaustive inside the bound, sampled beyond it: the right level for a total, pure function whose "
-             "interesting inputs are short marker look-alikes.",
-        note="trusted: TLC, the Txtar.tla reference semantics (cross-checked against golang.org/x/tools/txtar on every CR-free input), "
-             "the Go driver's comparison code; TrimSpace modelled on ASCII only",
-        technique="TLA+ reference semantics model-checked by TLC; TLC-generated cases replayed into txtar.Parse/Format; real traces validated by TLC"),
-    "C14": dict(
-        category="model_checking", design_ref="DESIGN.md section 3 C14",
-        text=TXTAR_LEVEL + " NeedsQuote is defined from the parser in the specification (TLC proves 'contains a marker line' = "
-             "'changes the parse' on every state) and the real NeedsQuote/Quote/Unquote are judged against the real parser and the specification.",
-        note="trusted: TLC, Txtar.tla, the Go driver; UTF-8 validity is outside the ASCII alphabets (only exercised by random inputs)",
-        technique="TLA+ reference semantics model-checked by TLC; TLC-generated cases replayed into NeedsQuote/Quote/Unquote; real traces validated by TLC"),
-}
-
+HERE = os.path.dirname(os.path.abspath(__file__))
 PENDING = "check not built yet in this round (design in DESIGN.md section 3); not claimed until its command exists"
+NOT_APPLICABLE = {}
+HOOK_COMMITS = []
+
+
+def load():
+    checks = {}
+    for l in open(os.path.join(os.path.dirname(HERE), "properties.jsonl")):
+        if not l.strip():
+            continue
+        pid = json.loads(l)["id"]
+        if os.path.exists(os.path.join(HERE, pid.lower() + ".py")):
+            mod = importlib.import_module(pid.lower())
+            if getattr(mod, "REGISTRY", None):
+                checks[pid] = mod.REGISTRY
+    return checks
